@@ -730,7 +730,7 @@ func c17Contract(env *core.Env) {
 		}
 	}
 	// every name of the function table is an existing name: registering a custom function under it fails at Compile
-	for _, t := range readTable() {
+	for _, t := range append(readTable(), tableEntry{Name: "convertToDateTime"}, tableEntry{Name: "where"}, tableEntry{Name: "convertsToDateTime"}) {
 		f := func(in system.Collection) (system.Collection, error) { return in, nil }
 		opts := [][]fhirpath.CompileOption{{compopts.WithExperimentalFuncs(), compopts.AddFunction(t.Name, f)}}
 		if !t.Experimental {
